@@ -506,6 +506,43 @@ fn run_instantiate_probes(cx: &mut Ctx) -> Result<(), String> {
     Ok(())
 }
 
+/// "the minter admin (the collection creator)": right after creation, with every secondary
+/// address a distinct account, the minter's Config.admin and the collection's creator are
+/// the creator named in the collection parameters - not the payer, the payment address,
+/// the royalty address or the factory.
+fn run_creation_checks(cx: &mut Ctx) -> Result<(), String> {
+    for mk in MinterKind::ALL {
+        let w = build(CK::Minter(mk), "fresh")?;
+        let minter = w.target.clone();
+        let coll = Addr::unchecked(w.addr("collection"));
+        let row = RowId { ck: CK::Minter(mk), state: "fresh".into(), kind: "create_minter".into(), role: Some("payer".into()) };
+        cx.rep.evaluations += 1;
+        cx.nontrivial.insert(format!("{}|creation-check", mk.name()));
+        let cfg = query_json(&w.app, &minter, &json!({"config": {}})).unwrap_or(Value::Null);
+        if mk != MinterKind::Base {
+            let admin = cfg.get("admin").and_then(|a| a.as_str()).unwrap_or("<none>").to_string();
+            cx.rep.bump(&format!("{}|creation|config-admin-is-creator|{}", mk.name(), admin == CREATOR));
+            if admin != CREATOR {
+                cx.violation(
+                    format!("C05:{}:admin-is-not-the-collection-creator", mk.name()),
+                    format!("{}: created by payer {} for creator {} with payment address {}: Config.admin is {}", mk.name(), PAYER, CREATOR, PAYADDR, admin),
+                    &row,
+                );
+            }
+        }
+        let ci = query_json(&w.app, &coll, &json!({"collection_info": {}})).unwrap_or(Value::Null);
+        let creator = ci.get("creator").and_then(|a| a.as_str()).unwrap_or("<none>").to_string();
+        if creator != CREATOR {
+            cx.violation(
+                format!("C05:{}:collection-creator-is-not-the-named-creator", mk.name()),
+                format!("{}: the collection created for creator {} (royalties to {}) answers creator = {}", mk.name(), CREATOR, ROYALTY, creator),
+                &row,
+            );
+        }
+    }
+    Ok(())
+}
+
 /// MsgMigrateContract as a row of the table: every contract with a migrate entry point,
 /// from states where governance has set non-default Status / Params, from stored cw2
 /// versions across the accepted range (and two refused pairs), sent by the wasm admin
@@ -999,6 +1036,7 @@ pub fn run(a: &Args) {
             (CK::Airdrop, _) => run_airdrop(&mut cx).map(|_| None),
             (_, "instantiate") => run_instantiate_probes(&mut cx).map(|_| None),
             (_, "migrate") => run_migrate(&mut cx, true).map(|_| None),
+            (_, "create_minter") if row.role.as_deref() == Some("payer") => run_creation_checks(&mut cx).map(|_| None),
             (ck, k) if k.starts_with("sudo_") => run_sudo_shaped(&mut cx, ck).map(|_| None),
             (ck, _) if row.state == "history" => run_history(&mut cx, &mut rng, ck, 60).map(|_| None),
             (ck, k) => run_row(&mut cx, ck, &row.state, k, true),
@@ -1064,6 +1102,9 @@ pub fn run(a: &Args) {
     // ---- (ii) instantiation
     if let Err(e) = run_instantiate_probes(&mut cx) {
         cx.rep.notes.push(format!("instantiate probes: {}", e));
+    }
+    if let Err(e) = run_creation_checks(&mut cx) {
+        cx.rep.notes.push(format!("creation checks: {}", e));
     }
     // ---- migrate, the other user message
     if let Err(e) = run_migrate(&mut cx, thorough) {
